@@ -23,6 +23,7 @@ import (
 
 	"github.com/beevik/etree"
 	"github.com/crewjam/saml"
+	"github.com/crewjam/saml/samlidp"
 	"github.com/crewjam/saml/samlsp"
 
 	"verif/engine/core"
@@ -444,6 +445,30 @@ func c09Metadata(t *core.T, doc []byte, family string, idp *saml.IdentityProvide
 		t.Fail("C09/samlsp.ParseMetadata/"+family+"/panic@"+core.PanicSite(st), "samlsp.ParseMetadata panicked: %s", trunc([]byte(st), 1500))
 		t.Input("metadata_xml", string(trunc(doc, 4000)))
 		return
+	}
+	// the bundled IdP server takes SP metadata as the body of PUT /services/{id}: it answers (201 or an error status), whatever the body
+	if srv, serr := samlidp.New(samlidp.Options{URL: harness.MustURL("https://idp.example.com"), Key: samlgen.Key("idp1").Key, Certificate: samlgen.Key("idp1").Cert, Store: &samlidp.MemoryStore{}, Logger: harness.NullLogger{}}); serr == nil {
+		var p string
+		code := 0
+		if !returnsWithin(20*time.Second, func() {
+			_, p = guard(func() error {
+				w := httptest.NewRecorder()
+				srv.ServeHTTP(w, httptest.NewRequest("PUT", "https://idp.example.com/services/x", bytes.NewReader(doc)))
+				code = w.Code
+				return nil
+			})
+		}) {
+			t.Fail("C09/samlidp.PUT-service/"+family+"/does-not-return", "PUT /services/x has not returned after 20 s on a %d-byte body", len(doc))
+			t.Input("metadata_xml", string(trunc(doc, 4000)))
+			return
+		}
+		t.Impl(1)
+		if p != "" {
+			t.Fail("C09/samlidp.PUT-service/"+family+"/panic@"+p[strings.LastIndex(p, "@")+1:], "PUT /services/x panicked: %s", p)
+			t.Input("metadata_xml", string(trunc(doc, 4000)))
+		} else if code == 0 {
+			t.Fail("C09/samlidp.PUT-service/"+family+"/no-reply", "PUT /services/x wrote no status")
+		}
 	}
 	_, pan := anyContract(t, "samlsp.ParseMetadata", family, func() (bool, error) { return r.md != nil, r.err })
 	if pan {
